@@ -1,4 +1,4 @@
-HOOK_COMMITS = ["dee96d4", "bf7d115"]
+HOOK_COMMITS = ["dee96d4", "bf7d115", "076d5ac"]
 
 NOT_APPLICABLE = {}
 
@@ -15,7 +15,7 @@ META = {
     },
     "C14": {
         "technique": "Lean 4 theorem (decision logic stated outright) + regenerated source pins + differential correspondence",
-        "text": "Kernel-checked theorems: the three-level resolver equals 'most specific non-empty setting, else default' for every presence pattern and all values (C14_resolve), field > sheet > book > default for separators (C14_sep_field/C14_subsep_field), and what confgen resolves from the options protogen records equals what protogen used (C14_recorded_agree_partial: without a book-level '#' row; the full statement is refuted by a kernel-checked witness, finding D11). The model is tied to the code by pins over the regenerated if-chains of MergeHeader and default constants, and by differential streams against the real MergeHeader / parseFieldDescriptor / newTableParser.",
+        "text": "Kernel-checked theorems: the three-level resolver equals 'most specific non-empty setting, else default' for every presence pattern and all values (C14_resolve), field > sheet > book > default for separators (C14_sep_field/C14_subsep_field), and what confgen resolves from the options protogen records equals what protogen used (C14_recorded_agree, for every sheet row, '#' row and global header; true since fix D11, the pre-fix recording is refuted by a kernel-checked witness). The model is tied to the code by pins over the regenerated if-chains of MergeHeader and default constants, by differential streams against the real MergeHeader / parseFieldDescriptor / newTableParser+mergeBookOptions, and by an end-to-end stream (sheets physically laid out per the resolved options through real GenProto+GenConf).",
         "note": "Trusted: Lean kernel; the hand-written model as far as the streams and pins check it; harness and extractor. Not modelled: CLI/YAML option loading.",
     },
 }
